@@ -1860,11 +1860,16 @@ def judge(c, binp, ops, label, stats, shrink=True):
         d = div2[0]
         # which side is wrong?  A listed out-of-order call that does not return its documented error value or
         # changes the state is a violation by the implementation; any other difference is a model/impl divergence
-        impl_wrong = d[8].startswith("ooo")
+        # ... and so is an iterator that delivers another number of elements than the structure it walks holds (the count
+        # was read off that structure when the iterator was made; class marker `L`)
+        miscount = d[8].endswith(" L")
+        impl_wrong = d[8].startswith("ooo") or miscount
         replay.update({"divergence": {"what": d[0], "call": d[2], "implementation_return": d[3], "implementation_state": d[4],
                                       "model_call": d[5], "model_return": d[6], "model_state": d[7], "class": d[8]},
                        "implementation_violates_property": impl_wrong,
-                       "what": "a listed out-of-order call did not return its documented error value or changed the state"
+                       "what": ("an iterator delivered another number of elements than the segmentation / alignment / lattice list "
+                                "it walks holds (or was not released by the call that returned NULL)" if miscount else
+                                "a listed out-of-order call did not return its documented error value or changed the state")
                                if impl_wrong else "return class or protocol state of the implementation differs from the model"})
         c.oblige(f"correspondence model = implementation ({label})", False, replay["divergence"])
         c.violation(replay, impl_wrong)
@@ -2171,6 +2176,9 @@ def check(c):
                   "the white lists keepsHyp / keepsJson / keepsCmn (which calls leave a borrowed buffer alone) are validated by "
                   "really reading the borrowed strings under ASan, not proved against the C code",
                   "clang ASan/UBSan/LSan as observers of memory errors, undefined behaviour and leaks",
+                  "the element counts the harness observes when an iterator is created (h_c09.c `rem_*`: read off the history "
+                  "backtrace / alignment vector / lattice lists, not through the iterator functions; best-path and A* segmentations "
+                  "are counted by walking a private second iterator) and `refused_indices` (which calls the twin replay drops)",
                   "absence of out-of-bounds accesses in the C code is OBSERVED on the generated histories, not proved"]
     c.assumptions += ["at most two decoders at a time; handles are used by one thread",
                       "a decoder made by decoder_create accepts only decoder_reinit / _free / _retain / _config + config_* / "
